@@ -351,3 +351,27 @@ package journal
 //@        && (forall k int :: {$range[k]} 0 <= k && k < $i ==> dyn(targ("PrintDirectiveLn", 0, entry(tlen()) + k), "*assertion.Assertion") == $range[k])
 //@   loop 6 invariant [C05] @closings: 0 <= $i && $i <= len($range) && $range == day.Closings && day != nil && tlen() == entry(tlen()) + $i
 //@        && (forall k int :: {$range[k]} 0 <= k && k < $i ==> dyn(targ("PrintDirectiveLn", 0, entry(tlen()) + k), "*close.Close") == $range[k])
+//
+// The processor constructors: which callbacks a stage installs, and that the valuation stages switch
+// themselves off (nil processor) exactly when no valuation commodity is given.
+//@ func ComputePrices
+//@   modifies nothing
+//@   ensures [C03] @off: v == nil ==> result == nil
+//@   ensures [C03] @wired: v != nil ==> result != nil && fresh(result) && result.Price != nil && result.DayEnd != nil && result.DayStart == nil && result.Posting == nil && result.Transaction == nil
+//
+//@ func Valuate
+//@   modifies nothing
+//@   ensures [C03] @off: valuation == nil ==> result == nil
+//@   ensures [C03] @wired: valuation != nil ==> result != nil && fresh(result) && result.DayStart != nil && result.Posting != nil && result.DayEnd != nil && result.Price == nil && result.Transaction == nil
+//
+//@ func Filter
+//@   modifies nothing
+//@   ensures [C02] @wired: result != nil && fresh(result) && result.DayEnd != nil && result.DayStart == nil && result.Posting == nil && result.Transaction == nil && result.Price == nil
+//
+//@ func Sort
+//@   modifies nothing
+//@   ensures [C05] [C06] @wired: result != nil && fresh(result) && result.DayEnd != nil && result.DayStart == nil && result.Posting == nil && result.Transaction == nil
+//
+//@ func (Query).Into
+//@   modifies nothing
+//@   ensures [C02] [C01] @wired: result != nil && fresh(result) && result.Posting != nil && result.DayStart == nil && result.DayEnd == nil && result.Transaction == nil && result.Price == nil
